@@ -19,9 +19,9 @@ Section Scale.
   Variable m : Z -> Q.      (* s.mapVal(float64(x)) *)
   Variable rnd : Q -> Q.    (* float64 rounding of an exact result *)
 
-  (* remapMinMax; `max = min + 1` is int64 arithmetic *)
+  (* remapMinMax, repaired (C14-scale-maxint): `max = min + 1` only when it does not wrap *)
   Definition remap (mn mx : Z) : Q * Q :=
-    let mx' := if (mx <=? mn)%Z then wrap64 (mn + 1) else mx in
+    let mx' := if (mx <=? mn)%Z then (if (mn <? max_int64)%Z then mn + 1 else mn)%Z else mx in
     (inject_Z (Qfloor (m mn)), inject_Z (Qceiling (m mx'))).
 
   (* Scaler.Scale *)
